@@ -152,8 +152,8 @@ Section Facts.
         assert (Hv : erase v' = erase v /\ on <= n' /\ (deep = false -> v' = v)
                      /\ (deep = true -> forall id, In id (cell_ids [v']) -> on <= id < n')).
         { destruct deep; simpl in Ed.
-          - destruct v; inversion Ed; subst; simpl; repeat split; try lia; try discriminate; try tauto.
-            intros _ id0 [H|[]]. lia.
+          - destruct v; inversion Ed; subst; simpl; repeat split; try lia; try discriminate; try tauto;
+              try (intros _ id0 [H|[]]; lia).
           - inversion Ed; subst. repeat split; try lia; try discriminate. }
         destruct Hv as [Hv1 [Hv2 [Hv3 Hv4]]].
         exists res, on'. split; [exact H1|]. split; [lia|]. split.
@@ -178,29 +178,67 @@ Section Facts.
   Qed.
 
   (* ================= the variables loop ================= *)
-  (* relation between an old series and its reindexed version *)
+  Lemma is_obj_false dt : is_obj dt = false -> dt <> DObj.
+  Proof. destruct dt; simpl; congruence. Qed.
+  Lemma is_obj_true dt : is_obj dt = true -> dt = DObj.
+  Proof. destruct dt; simpl; congruence. Qed.
+
+  (* relation between an old series and its reindexed version: same name and dtype; the data are the specified series — exactly
+     for every dtype but object, and up to the identities of the (deep-copied) referenced objects for object dtype *)
   Definition series_rel (ols labels : list label) (fills : list (string * pyval)) (fv : pyval)
              (a b : string * series cell) : Prop :=
     fst b = fst a /\ s_dtype (snd b) = s_dtype (snd a)
     /\ exists c, fill_cell' (length labels) (s_dtype (snd a)) (fill_for fills fv (fst a)) = Ret c
-              /\ s_data (snd b) = reindexed_data ols (s_data (snd a)) c labels.
+              /\ map erase (s_data (snd b)) = map erase (reindexed_data ols (s_data (snd a)) c labels)
+              /\ (s_dtype (snd a) <> DObj -> s_data (snd b) = reindexed_data ols (s_data (snd a)) c labels).
 
-  Lemma reindex_vars_spec ols labels m fills fv : forall vars next vars',
+  Lemma reindexed_data_cell_ids ols old c labels id :
+    In id (cell_ids (reindexed_data ols old c labels)) -> In id (cell_ids old) \/ In id (cell_ids [c]).
+  Proof.
+    unfold reindexed_data, cell_ids. rewrite flat_map_concat_map, map_map, <- flat_map_concat_map.
+    intros H. apply in_flat_map in H as [p [_ Hp]].
+    destruct (pos p ols) as [q|]; [|right; simpl; rewrite app_nil_r; exact Hp].
+    destruct (Nat.lt_ge_cases q (length old)) as [Hq|Hq].
+    - left. apply in_flat_map. exists (nth q old c). split; [apply nth_In; exact Hq | exact Hp].
+    - rewrite nth_overflow in Hp by exact Hq. right. simpl. rewrite app_nil_r. exact Hp.
+  Qed.
+  Lemma fill_cell_CO n dt v id : fill_cell' n dt v = Ret (CO id) -> exists n' dt' v', cast n' dt' v' = Ret (CO id).
+  Proof. unfold fill_cell. destruct v, dt; try discriminate; eauto. Qed.
+
+  Lemma reindex_vars_spec ols labels m fills fv : forall vars next on vars' on',
     Forall2 pos_rel m (expected_positions ols 0 labels) ->
     Forall (fun kv => length (s_data (snd kv)) = length ols) vars ->
-    reindex_vars' (length labels) m fills fv vars next = Ret vars' ->
+    reindex_vars' (length labels) m fills fv vars next on = Ret (vars', on') ->
     Forall2 (series_rel ols labels fills fv) vars vars'
-    /\ series_ids vars' = map (fun i => next + Z.of_nat i) (seq 0 (length vars)).
+    /\ series_ids vars' = map (fun i => next + Z.of_nat i) (seq 0 (length vars))
+    /\ on <= on'
+    /\ (forall id, In id (object_ids vars') ->
+          on <= id < on'
+          \/ (exists n dt v, cast n dt v = Ret (CO id))
+          \/ (exists kv, In kv vars /\ s_dtype (snd kv) <> DObj /\ In id (cell_ids (s_data (snd kv))))).
   Proof.
-    induction vars as [|[name sr] r IH]; intros next vars' HF Hwf H; simpl in H.
-    - inversion H. split; [constructor | reflexivity].
+    induction vars as [|[name sr] r IH]; intros next on vars' on' HF Hwf H; simpl in H.
+    - inversion H; subst. split; [constructor|]. split; [reflexivity|]. split; [lia|]. simpl. tauto.
     - inversion Hwf as [|? ? Hlen Hwf']; subst. simpl in Hlen.
       destruct (fill_cell' (length labels) (s_dtype sr) (fill_for fills fv name)) as [c|e] eqn:Ec; simpl in H; [|discriminate].
-      pose proof (copy_over_spec ols (s_data sr) c labels [] m Hlen HF) as Hco. simpl in Hco. rewrite Hco in H. simpl in H.
-      destruct (reindex_vars' (length labels) m fills fv r (next + 1)) as [r'|e] eqn:Er; simpl in H; [|discriminate].
-      inversion H; subst. destruct (IH (next + 1) r' HF Hwf' Er) as [I1 I2]. split.
-      + constructor; [|exact I1]. split; [reflexivity|]. split; [reflexivity|]. exists c. split; [exact Ec | reflexivity].
-      + simpl. f_equal; [lia|]. rewrite I2. rewrite <- seq_shift, map_map. apply map_ext. intros i. lia.
+      destruct (copy_over_spec (is_obj (s_dtype sr)) ols (s_data sr) c labels [] m on Hlen HF) as [res [on1 [Hco [Hle [Her [Hex Hids]]]]]].
+      simpl in Hco. rewrite Hco in H. simpl in H.
+      destruct (reindex_vars' (length labels) m fills fv r (next + 1) on1) as [[r' on2]|e] eqn:Er; simpl in H; [|discriminate].
+      inversion H; subst. destruct (IH (next + 1) on1 r' on' HF Hwf' Er) as [I1 [I2 [I3 I4]]]. split.
+      + constructor; [|exact I1]. split; [reflexivity|]. split; [reflexivity|]. exists c. split; [exact Ec|]. simpl. split; [exact Her|].
+        intros Hd. apply Hex. destruct (s_dtype sr); simpl; congruence.
+      + split; [simpl; f_equal; [lia|]; rewrite I2; rewrite <- seq_shift, map_map; apply map_ext; intros i; lia|].
+        split; [lia|]. intros id Hid. simpl in Hid. apply in_app_or in Hid as [Hid|Hid].
+        * destruct (is_obj (s_dtype sr)) eqn:Eo.
+          -- destruct (Hids eq_refl id Hid) as [Hd|[Hd|Hd]]; [simpl in Hd; contradiction | | left; lia].
+             right. left. simpl in Hd. rewrite app_nil_r in Hd. destruct c; simpl in Hd; try contradiction.
+             destruct Hd as [Hd|[]]. subst. exact (fill_cell_CO _ _ _ _ Ec).
+          -- rewrite (Hex eq_refl) in Hid. simpl in Hid. apply reindexed_data_cell_ids in Hid as [Hd|Hd].
+             ++ right. right. exists (name, sr). split; [left; reflexivity|]. split; [apply is_obj_false; exact Eo | exact Hd].
+             ++ right. left. simpl in Hd. rewrite app_nil_r in Hd. destruct c; simpl in Hd; try contradiction.
+                destruct Hd as [Hd|[]]. subst. exact (fill_cell_CO _ _ _ _ Ec).
+        * destruct (I4 id Hid) as [Hd|[Hd|[kv [K1 [K2 K3]]]]]; [left; lia | right; left; exact Hd |].
+          right. right. exists kv. split; [right; exact K1|]. split; [exact K2 | exact K3].
   Qed.
 
   Lemma copy_attrs_spec attrs : forall next attrs' next',
@@ -218,38 +256,40 @@ Section Facts.
         simpl. intros id0 [H0|H0]; [lia|]. apply I3 in H0. lia.
   Qed.
 
+  (* unfolding a successful call *)
+  Lemma reindex_M_inv (st st' : cst) (new_span : span) (new_id : Z) (fv : pyval) (strict : option bool)
+        (fills : list (string * pyval)) (fresh : Z) :
+    old_span_ok (c_span st) (span_labels new_span) ->
+    reindex_M' st new_span new_id fv strict fills fresh = Ret st' ->
+    exists m attrs' next vars' on',
+      Forall2 pos_rel m (expected_positions (span_labels (c_span st)) 0 (span_labels new_span))
+      /\ copy_attrs (c_attrs st) (fresh + 1) = (attrs', next)
+      /\ reindex_vars' (length (span_labels new_span)) m fills fv (c_vars st) next (next + Z.of_nat (length (c_vars st))) = Ret (vars', on')
+      /\ st' = mkC new_span fresh vars' attrs' (c_strict st).
+  Proof.
+    intros Hok H. unfold reindex_M in H.
+    destruct ((match strict with None => c_strict st | Some b => b end) && existsb (fun kv => negb (mem_name (fst kv) (c_vars st))) fills); [discriminate|].
+    destruct (build_positions_spec (c_span st) (span_labels new_span) 0%nat Hok) as [m [Hm HF]].
+    rewrite Hm in H. simpl in H.
+    destruct (copy_attrs (c_attrs st) (fresh + 1)) as [attrs' next] eqn:Ea.
+    destruct (reindex_vars' (length (span_labels new_span)) m fills fv (c_vars st) next (next + Z.of_nat (length (c_vars st)))) as [[vars' on']|e] eqn:Ev; simpl in H; [|discriminate].
+    inversion H; subst. exists m, attrs', next, vars', on'. repeat split; assumption.
+  Qed.
+
   (* ================= reindex_values + reindex_preserves_meta ================= *)
   Theorem reindex_values (st st' : cst) (new_span : span) (new_id : Z) (fv : pyval) (strict : option bool)
           (fills : list (string * pyval)) (fresh : Z) :
     wf st ->
     old_span_ok (c_span st) (span_labels new_span) ->
     reindex_M' st new_span new_id fv strict fills fresh = Ret st' ->
-    c_span st' = new_span /\ c_span_id st' = new_id /\ c_strict st' = c_strict st
+    c_span st' = new_span /\ c_span_id st' = fresh /\ c_strict st' = c_strict st
     /\ attrs_view (c_attrs st') = attrs_view (c_attrs st)
     /\ Forall2 (series_rel (span_labels (c_span st)) (span_labels new_span) fills fv) (c_vars st) (c_vars st').
   Proof.
-    intros Hwf Hok H. unfold reindex_M in H.
-    destruct ((match strict with None => c_strict st | Some b => b end) && existsb (fun kv => negb (mem_name (fst kv) (c_vars st))) fills); [discriminate|].
-    destruct (build_positions_spec (c_span st) (span_labels new_span) 0%nat Hok) as [m [Hm HF]].
-    rewrite Hm in H. simpl in H.
-    destruct (copy_attrs (c_attrs st) fresh) as [attrs' next] eqn:Ea.
-    destruct (reindex_vars' (length (span_labels new_span)) m fills fv (c_vars st) next) as [vars'|e] eqn:Ev; simpl in H; [|discriminate].
-    inversion H; subst. simpl.
-    destruct (reindex_vars_spec _ _ m fills fv (c_vars st) next vars' HF Hwf Ev) as [R _].
+    intros Hwf Hok H. destruct (reindex_M_inv _ _ _ _ _ _ _ _ Hok H) as [m [attrs' [next [vars' [on' [HF [Ea [Ev E]]]]]]]]. subst st'. simpl.
+    destruct (reindex_vars_spec _ _ m fills fv (c_vars st) next _ vars' on' HF Hwf Ev) as [R _].
     destruct (copy_attrs_spec _ _ _ _ Ea) as [A _].
     repeat split; try reflexivity; assumption.
-  Qed.
-
-  (* element-wise reading of series_rel: the value at each period of the new span *)
-  Lemma series_rel_at ols labels fills fv a b i p :
-    series_rel ols labels fills fv a b -> nth_error labels i = Some p ->
-    exists c, fill_cell' (length labels) (s_dtype (snd a)) (fill_for fills fv (fst a)) = Ret c
-           /\ nth_error (s_data (snd b)) i = Some (match pos p ols with Some q => nth q (s_data (snd a)) c | None => c end)
-           /\ length (s_data (snd b)) = length labels.
-  Proof.
-    intros [_ [_ [c [Hc Hd]]]] Hp. exists c. split; [exact Hc|]. rewrite Hd. unfold reindexed_data. split.
-    - rewrite nth_error_map, Hp. reflexivity.
-    - apply map_length.
   Qed.
 
   (* the reindexed object is well formed again, with the same variable names in the same order and the same dtypes *)
@@ -259,78 +299,63 @@ Section Facts.
     /\ map (fun kv => s_dtype (snd kv)) vars' = map (fun kv => s_dtype (snd kv)) vars
     /\ Forall (fun kv => length (s_data (snd kv)) = length labels) vars'.
   Proof.
-    induction 1 as [|a b r r' [H1 [H2 [c [_ H3]]]] HF [I1 [I2 I3]]]; simpl; [repeat split; constructor|].
+    induction 1 as [|a b r r' [H1 [H2 [c [_ [H3 _]]]]] HF [I1 [I2 I3]]]; simpl; [repeat split; constructor|].
     split; [rewrite H1, I1; reflexivity|]. split; [rewrite H2, I2; reflexivity|].
-    constructor; [rewrite H3; apply map_length | exact I3].
+    constructor; [|exact I3]. apply (f_equal (@length cell)) in H3. rewrite !map_length in H3. rewrite H3. apply map_length.
   Qed.
 
   (* ================= reindex_fresh ================= *)
-  Lemma reindexed_data_cell_ids ols old c labels id :
-    In id (cell_ids (reindexed_data ols old c labels)) -> In id (cell_ids old) \/ In id (cell_ids [c]).
-  Proof.
-    unfold reindexed_data, cell_ids. rewrite flat_map_concat_map, map_map, <- flat_map_concat_map.
-    intros H. apply in_flat_map in H as [p [_ Hp]].
-    destruct (pos p ols) as [q|]; [|right; simpl; rewrite app_nil_r; exact Hp].
-    destruct (Nat.lt_ge_cases q (length old)) as [Hq|Hq].
-    - left. apply in_flat_map. exists (nth q old c). split; [apply nth_In; exact Hq | exact Hp].
-    - rewrite nth_overflow in Hp by exact Hq. right. simpl. rewrite app_nil_r. exact Hp.
-  Qed.
-
+  (* the span object, every array and every mutable attribute of the result are newly allocated objects; an object reference in a
+     cell of the result is a newly allocated copy, or the fill value's — or sits in a series that is NOT of object dtype (NumPy
+     keeps references in object arrays only: see obj_typed) *)
   Theorem reindex_fresh (st st' : cst) (new_span : span) (new_id : Z) (fv : pyval) (strict : option bool)
           (fills : list (string * pyval)) (fresh : Z) :
     wf st ->
     old_span_ok (c_span st) (span_labels new_span) ->
     reindex_M' st new_span new_id fv strict fills fresh = Ret st' ->
-    (* every array and every mutable attribute of the result is a new object *)
-    (forall id, In id (series_ids (c_vars st') ++ attr_ids (c_attrs st')) -> fresh <= id)
-    (* object references in the result come from the original's cells or from the fill value *)
+    (forall id, In id (c_span_id st' :: series_ids (c_vars st') ++ attr_ids (c_attrs st')) -> fresh <= id)
     /\ (forall id, In id (object_ids (c_vars st')) ->
-          In id (object_ids (c_vars st)) \/ exists n dt v, cast n dt v = Ret (CO id)).
+          fresh <= id
+          \/ (exists n dt v, cast n dt v = Ret (CO id))
+          \/ (exists kv, In kv (c_vars st) /\ s_dtype (snd kv) <> DObj /\ In id (cell_ids (s_data (snd kv))))).
   Proof.
-    intros Hwf Hok H. unfold reindex_M in H.
-    destruct ((match strict with None => c_strict st | Some b => b end) && existsb (fun kv => negb (mem_name (fst kv) (c_vars st))) fills); [discriminate|].
-    destruct (build_positions_spec (c_span st) (span_labels new_span) 0%nat Hok) as [m [Hm HF]].
-    rewrite Hm in H. simpl in H.
-    destruct (copy_attrs (c_attrs st) fresh) as [attrs' next] eqn:Ea.
-    destruct (reindex_vars' (length (span_labels new_span)) m fills fv (c_vars st) next) as [vars'|e] eqn:Ev; simpl in H; [|discriminate].
-    inversion H; subst. simpl.
-    destruct (reindex_vars_spec _ _ m fills fv (c_vars st) next vars' HF Hwf Ev) as [R I].
+    intros Hwf Hok H. destruct (reindex_M_inv _ _ _ _ _ _ _ _ Hok H) as [m [attrs' [next [vars' [on' [HF [Ea [Ev E]]]]]]]]. subst st'. simpl.
+    destruct (reindex_vars_spec _ _ m fills fv (c_vars st) next _ vars' on' HF Hwf Ev) as [R [I [Hle Hobj]]].
     destruct (copy_attrs_spec _ _ _ _ Ea) as [_ [A1 A2]]. split.
-    - intros id Hid. apply in_app_or in Hid as [Hid|Hid].
+    - intros id [Hid|Hid]; [lia|]. apply in_app_or in Hid as [Hid|Hid].
       + rewrite I in Hid. apply in_map_iff in Hid as [i [Hi _]]. lia.
       + apply A2 in Hid. lia.
-    - clear - R. induction R as [|a b r r' [_ [_ [c [Hc Hd]]]] HF IH]; simpl; [tauto|].
-      intros id Hid. apply in_app_or in Hid as [Hid|Hid].
-      + rewrite Hd in Hid. apply reindexed_data_cell_ids in Hid as [Hid|Hid].
-        * left. apply in_or_app. left. exact Hid.
-        * right. simpl in Hid. rewrite app_nil_r in Hid. destruct c; simpl in Hid; try contradiction.
-          destruct Hid as [Hid|[]]. subst. unfold fill_cell in Hc.
-          destruct (fill_for fills fv (fst a)), (s_dtype (snd a)); try discriminate; eauto.
-      + destruct (IH id Hid) as [H|H]; [left; apply in_or_app; right; exact H | right; exact H].
+    - intros id Hid. destruct (Hobj id Hid) as [Hd|[Hd|Hd]]; [left; lia | right; left; exact Hd | right; right; exact Hd].
   Qed.
 
-  (* with no object references around (no object-dtype cell holding a reference, fills never produce one), an
-     allocator that hands out unused identities, and a new span object that is not one of the original's
-     objects: the result shares nothing with the original *)
+  (* object references live in object-dtype series only *)
+  Definition obj_typed (st : cst) : Prop :=
+    Forall (fun kv => s_dtype (snd kv) <> DObj -> cell_ids (s_data (snd kv)) = []) (c_vars st).
+
+  (* an allocator handing out unused identities, fill values that are not objects of the original: the result shares NOTHING with
+     the original — not the span object (even when the caller passes the original's own span), not an array, not a mutable
+     attribute, not an object held in an object-dtype cell *)
   Theorem reindex_shares_nothing (st st' : cst) (new_span : span) (new_id : Z) (fv : pyval) (strict : option bool)
           (fills : list (string * pyval)) (fresh : Z) :
     wf st ->
     old_span_ok (c_span st) (span_labels new_span) ->
     (forall id, In id (ids st) -> id < fresh) ->
-    ~ In new_id (ids st) ->
-    object_ids (c_vars st) = [] ->
-    (forall n dt v id, cast n dt v <> Ret (CO id)) ->
+    obj_typed st ->
+    (forall n dt v id, cast n dt v = Ret (CO id) -> ~ In id (ids st)) ->
     reindex_M' st new_span new_id fv strict fills fresh = Ret st' ->
     forall id, In id (ids st') -> ~ In id (ids st).
   Proof.
-    intros Hwf Hok Hlt Hnew Hobj Hcast H id Hid Hin.
+    intros Hwf Hok Hlt Hty Hcast H id Hid Hin.
     destruct (reindex_fresh st st' new_span new_id fv strict fills fresh Hwf Hok H) as [F1 F2].
-    destruct (reindex_values st st' new_span new_id fv strict fills fresh Hwf Hok H) as [_ [Hsid _]].
-    unfold ids in Hid. simpl in Hid. destruct Hid as [Hid|Hid].
-    - rewrite Hsid in Hid. subst. contradiction.
-    - rewrite app_assoc in Hid. apply in_app_or in Hid as [Hid|Hid].
-      + apply F1 in Hid. apply Hlt in Hin. lia.
-      + apply F2 in Hid as [Hid|[n [dt [v Hid]]]]; [rewrite Hobj in Hid; contradiction | exact (Hcast n dt v id Hid)].
+    unfold ids in Hid. simpl in Hid. rewrite app_assoc in Hid.
+    assert (Hid' : In id (c_span_id st' :: series_ids (c_vars st') ++ attr_ids (c_attrs st')) \/ In id (object_ids (c_vars st'))).
+    { destruct Hid as [Hid|Hid]; [left; left; exact Hid|]. apply in_app_or in Hid as [Hid|Hid]; [left; right; exact Hid | right; exact Hid]. }
+    destruct Hid' as [Hid'|Hid'].
+    - apply F1 in Hid'. apply Hlt in Hin. lia.
+    - destruct (F2 id Hid') as [Hd|[[n [dt [v Hd]]]|[kv [K1 [K2 K3]]]]].
+      + apply Hlt in Hin. lia.
+      + exact (Hcast n dt v id Hd Hin).
+      + unfold obj_typed in Hty. rewrite Forall_forall in Hty. rewrite (Hty kv K1 K2) in K3. contradiction.
   Qed.
 
   (* ================= unknown_fill_rejected_only_strict ================= *)
